@@ -117,6 +117,13 @@ Definition flush_levels (lvs : list (list file)) (lvl : nat) (num : N) (im : lis
   | _ => set_level lvs lvl (insert_file ucmp (mkF num im) (level_files lvs lvl))
   end.
 
+Lemma flush_levels_ne lvs lvl num im : im <> [] ->
+  flush_levels lvs lvl num im = set_level lvs lvl (insert_file ucmp (mkF num im) (level_files lvs lvl)).
+Proof. intros H. unfold flush_levels. destruct im; auto. congruence. Qed.
+
+Lemma nil_dec (im : list entry) : im = [] \/ im <> [].
+Proof. destruct im; [left|right]; auto. discriminate. Qed.
+
 Lemma flush_inv s lvl num nf s' :
   do_flush ucmp s lvl num nf = Some s' ->
   exists im, imm s = Some im /\ next_file s <= num /\ num < nf /\
@@ -208,12 +215,11 @@ Proof.
   - apply Srt_nil.
   - intros i f Hf. cbn [levels s'] in Hf. apply Hfiles in Hf. destruct Hf as [Hf|(Hne & _ & ->)]; auto.
     eapply (si_fok _ _ HI); eauto.
-  - intros i Hi. cbn [levels s']. unfold lv', flush_levels.
-    destruct im as [|e0 r] eqn:Eim'. apply (si_lsort _ _ HI); auto.
-    rewrite <- Eim'. rewrite level_files_set by auto.
+  - intros i Hi. cbn [levels s']. unfold lv'.
+    destruct (nil_dec im) as [Hnil|Hne]. rewrite Hnil. apply (si_lsort _ _ HI); auto.
+    rewrite flush_levels_ne by auto. rewrite level_files_set by auto.
     destruct (i =? lvl)%nat eqn:E; [|apply (si_lsort _ _ HI); auto].
     apply Nat.eqb_eq in E. subst i.
-    assert (Hne: im <> []) by (rewrite Eim'; discriminate).
     apply (insert_file_SS ucmp); auto.
     + apply Forall_forall. intros g Hg. eapply (si_fok _ _ HI); eauto.
     + apply (si_lsort _ _ HI); auto.
@@ -246,8 +252,9 @@ Proof.
   - intros i f Hf. cbn [levels s' next_file] in *. apply Hfiles in Hf. destruct Hf as [Hf|(Hne & _ & ->)].
     + pose proof (si_num _ _ HI _ _ Hf). lia.
     + cbn [fnum F]. lia.
-  - cbn [levels s']. unfold lv', flush_levels.
-    destruct im as [|e0 r] eqn:Eim'. apply HI. rewrite <- Eim'.
+  - cbn [levels s']. unfold lv'.
+    destruct (nil_dec im) as [Hnil|Hne]. rewrite Hnil. apply HI.
+    rewrite flush_levels_ne by auto.
     apply ND_set_level; auto. apply HI.
     + eapply Permutation_NoDup. symmetry. apply Permutation_map. apply insert_file_Perm.
       cbn [map]. constructor. 2: apply (si_nd _ _ HI).
@@ -257,6 +264,261 @@ Proof.
       right. intros j g _ Hg. pose proof (si_num _ _ HI _ _ Hg). cbn [fnum]. lia.
   - exact (si_snap _ _ HI).
   - exact (si_snsort _ _ HI).
+Qed.
+
+(* ------------------------------------------------------------ OReopen: helpers *)
+Lemma Cmp_of_ueq_neq a b : (ueq (ek a) (ek b) = true -> es a <> es b) -> Cmp a b.
+Proof.
+  intros H. unfold EngineStepsBase.Cmp. rewrite !ilt_iff, (ucmp_opp ucmp (ek b) (ek a)).
+  destruct (ucmp (ek a) (ek b)) eqn:E; cbn [CompOpp]; auto.
+  assert (Hn: es a <> es b). { apply H. apply ueq_iff. exact E. }
+  destruct (N.lt_trichotomy (es a) (es b)) as [H1|[H1|H1]]; auto; try contradiction.
+Qed.
+
+Lemma pending_eq s : pending_entries ucmp s = fold_right (insert_sorted ucmp) (mem s) (imm_run s).
+Proof. unfold pending_entries, imm_run. destruct (imm s); reflexivity. Qed.
+
+Lemma pending_In s e : In e (pending_entries ucmp s) <-> In e (imm_run s) \/ In e (mem s).
+Proof. rewrite pending_eq. apply fold_insert_In. Qed.
+
+Lemma pending_Srt s : SInv s -> Srt (pending_entries ucmp s).
+Proof.
+  intros HI. rewrite pending_eq. apply (fold_insert_Srt ucmp).
+  - apply HI.
+  - apply HI.
+  - intros x y Hx Hy. apply Cmp_of_ueq_neq. intros Hk.
+    assert (es x < es y); [|lia].
+    apply (si_rec _ _ HI PMem PImm y x); auto. exact I. apply (ueq_sym ucmp). exact Hk.
+Qed.
+
+Lemma chunk_In l b pend e : In e (chunk l b pend) <-> In e pend /\ l < es e <= b.
+Proof.
+  unfold chunk. rewrite filter_In. split; intros [H1 H2]; split; auto; lia.
+Qed.
+
+Lemma si_FOP l : strictly_increasing l = true -> ForallOrdPairs N.lt l.
+Proof.
+  induction l as [|x r IH]; intros H. constructor.
+  cbn [strictly_increasing] in H. apply andb_true_iff in H. destruct H as [H1 H2].
+  specialize (IH H2). constructor; auto.
+  destruct r as [|y r']. constructor.
+  inversion IH; subst. constructor. lia.
+  eapply Forall_impl; [|eassumption]. intros z Hz. cbn beta in Hz. lia.
+Qed.
+
+Definition SeqB (f g : file) : Prop := forall a b, In a (fents f) -> In b (fents g) -> es a < es b.
+
+Lemma reopen_files_spec pend bounds : forall lo nums fs top,
+  reopen_files lo bounds nums pend = Some (fs, top) ->
+  map fnum fs = nums /\ lo <= top /\
+  (forall f, In f fs -> (exists l b, fents f = chunk l b pend) /\
+                        forall e, In e (fents f) -> In e pend /\ lo < es e <= top) /\
+  ForallOrdPairs SeqB fs /\
+  (forall e, In e pend -> lo < es e <= top -> exists f, In f fs /\ In e (fents f)).
+Proof.
+  induction bounds as [|b bs IH]; intros lo nums fs top H; cbn [reopen_files] in H.
+  - destruct nums; [|discriminate]. injection H as <- <-.
+    split; auto. split. lia. split. intros f []. split. constructor. intros e _ He. lia.
+  - destruct nums as [|n ns]; [discriminate|].
+    destruct (lo <? b) eqn:Elo; [|discriminate].
+    destruct (reopen_files b bs ns pend) as [[fs0 top0]|] eqn:ER; [|discriminate].
+    injection H as <- <-.
+    destruct (IH b ns fs0 top0 ER) as (I1 & I2 & I3 & I4 & I5).
+    split. cbn [map fnum]. f_equal. exact I1.
+    split. lia.
+    split; [|split].
+    + intros f [<-|Hf].
+      * cbn [fents]. split. eauto. intros e He. apply chunk_In in He. split. apply He. lia.
+      * destruct (I3 f Hf) as [Ha Hb]. split; auto. intros e He. destruct (Hb e He). split; auto. lia.
+    + constructor; auto. apply Forall_forall. intros g Hg a c Ha Hc. cbn [fents] in Ha.
+      apply chunk_In in Ha. destruct (I3 g Hg) as [_ Hb]. destruct (Hb c Hc). lia.
+    + intros e He Hr. destruct (N.le_gt_cases (es e) b) as [Hle|Hgt].
+      * exists (mkF n (chunk lo b pend)). split. left; auto. cbn [fents]. apply chunk_In. split; auto. lia.
+      * destruct (I5 e He) as (f & Hf1 & Hf2). lia. exists f. split; auto. right; auto.
+Qed.
+
+Lemma forallb_In {A} (P : A -> bool) l x : forallb P l = true -> In x l -> P x = true.
+Proof. intros H. rewrite forallb_forall in H. auto. Qed.
+
+Definition nonempty_file (f : file) : bool := match fents f with [] => false | _ => true end.
+
+Lemma nonempty_file_iff f : nonempty_file f = true <-> fents f <> [].
+Proof. unfold nonempty_file. destruct (fents f); split; intros; congruence. Qed.
+
+Definition reopen_state (s : state) (fs : list file) (top nf : N) : state :=
+  mkS (filter (fun e => top <? es e) (pending_entries ucmp s)) None
+      (set_level (levels s) 0 (add_files ucmp (level_files (levels s) 0) (filter nonempty_file fs)))
+      (last_seq s) [] nf (hist s).
+
+Lemma reopen_inv s bounds nums nf s' :
+  do_reopen ucmp s bounds nums nf = Some s' ->
+  exists fs top, reopen_files 0 bounds nums (pending_entries ucmp s) = Some (fs, top) /\
+    (forall n, In n nums -> next_file s <= n < nf) /\ strictly_increasing nums = true /\
+    next_file s <= nf /\ s' = reopen_state s fs top nf.
+Proof.
+  unfold do_reopen.
+  destruct (forallb (fresh_num s) nums && strictly_increasing nums && forallb (fun n => n <? nf) nums
+            && (next_file s <=? nf) && forallb (fun b => b <=? last_seq s) bounds) eqn:G; [|discriminate].
+  destruct (reopen_files 0 bounds nums (pending_entries ucmp s)) as [[fs top]|] eqn:ER; [|discriminate].
+  intros H; injection H as <-.
+  apply andb_true_iff in G. destruct G as [G G5].
+  apply andb_true_iff in G. destruct G as [G G4].
+  apply andb_true_iff in G. destruct G as [G G3].
+  apply andb_true_iff in G. destruct G as [G1 G2].
+  exists fs, top. split; auto. split; [|split; [|split]]; auto.
+  - intros n Hn. pose proof (forallb_In _ _ _ G1 Hn) as H1. pose proof (forallb_In _ _ _ G3 Hn) as H3.
+    unfold fresh_num in H1. cbn beta in H3. lia.
+  - lia.
+Qed.
+
+Lemma reopen_same s bounds nums nf s' : do_reopen ucmp s bounds nums nf = Some s' ->
+  last_seq s' = last_seq s /\ snaps s' = [] /\ hist s' = hist s.
+Proof.
+  intros H. apply reopen_inv in H. destruct H as (fs & top & _ & _ & _ & _ & ->). cbn. auto.
+Qed.
+
+Lemma reopen_level_files s fs top nf i g :
+  (0 < length (levels s))%nat ->
+  (In g (level_files (levels (reopen_state s fs top nf)) i) <->
+   (i = 0%nat /\ In g fs /\ fents g <> []) \/ In g (level_files (levels s) i)).
+Proof.
+  intros Hl. unfold reopen_state. cbn [levels]. rewrite level_files_set by auto.
+  destruct (i =? 0)%nat eqn:E.
+  - apply Nat.eqb_eq in E. subst i. rewrite add_files_In, filter_In, nonempty_file_iff. tauto.
+  - apply Nat.eqb_neq in E. split; auto. intros [(H & _)|H]; auto. congruence.
+Qed.
+
+Lemma reopen_entries_sub s bounds nums nf fs top e :
+  SInv s -> reopen_files 0 bounds nums (pending_entries ucmp s) = Some (fs, top) ->
+  In e (all_entries (reopen_state s fs top nf)) -> In e (all_entries s).
+Proof.
+  intros HI ER.
+  destruct (reopen_files_spec _ _ _ _ _ _ ER) as (I1 & I2 & I3 & I4 & I5).
+  assert (Hl: (0 < length (levels s))%nat). { rewrite (si_len _ _ HI). unfold NUM_LEVELS. lia. }
+  rewrite !all_entries_In.
+  intros [H|[H|(i & f & H1 & H2)]].
+  - unfold reopen_state in H. cbn [mem] in H. apply filter_In in H. destruct H as [H _].
+    apply pending_In in H. tauto.
+  - destruct H.
+  - apply reopen_level_files in H1; auto. destruct H1 as [(_ & Hf & _)|H1].
+    + destruct (I3 f Hf) as [_ Hb]. destruct (Hb e H2) as [Hp _]. apply pending_In in Hp. tauto.
+    + right; right; eauto.
+Qed.
+
+Lemma reopen_state_SInv s bounds nums nf fs top :
+  SInv s -> reopen_files 0 bounds nums (pending_entries ucmp s) = Some (fs, top) ->
+  (forall n, In n nums -> next_file s <= n < nf) -> strictly_increasing nums = true ->
+  next_file s <= nf -> SInv (reopen_state s fs top nf).
+Proof.
+  intros HI ER Hn Hinc Hnf.
+  pose proof (fun e => reopen_entries_sub s bounds nums nf fs top e HI ER) as Hsub.
+  destruct (reopen_files_spec _ _ _ _ _ _ ER) as (I1 & I2 & I3 & I4 & I5).
+  assert (Hl: (0 < length (levels s))%nat). { rewrite (si_len _ _ HI). unfold NUM_LEVELS. lia. }
+  pose proof (pending_Srt s HI) as SP.
+  assert (Hlf := fun i g => reopen_level_files s fs top nf i g Hl).
+  assert (Hpend: forall e, In e (pending_entries ucmp s) -> at_place s PMem e \/ at_place s PImm e).
+  { intros e He. apply pending_In in He. destruct He; [right|left]; auto. }
+  assert (Hnum: forall f, In f fs -> next_file s <= fnum f < nf).
+  { intros f Hf. apply Hn. rewrite <- I1. apply in_map; auto. }
+  assert (HFN: ForallOrdPairs (fun f g => fnum f < fnum g) fs).
+  { apply -> (FOP_map fnum N.lt fs). rewrite I1. apply si_FOP; auto. }
+  set (L0 := level_files (levels s) 0) in *.
+  set (s' := reopen_state s fs top nf) in *.
+  assert (Hpl: forall p e, at_place s' p e ->
+            (p = PMem /\ In e (pending_entries ucmp s) /\ top < es e) \/
+            (exists f, p = PF0 (fnum f) /\ In f fs /\ In e (fents f)) \/
+            (p <> PMem /\ p <> PImm /\ at_place s p e)).
+  { intros p e Hp. destruct p as [| |n|i].
+    - left. change (In e (filter (fun e => top <? es e) (pending_entries ucmp s))) in Hp.
+      apply filter_In in Hp. destruct Hp as [Hp1 Hp2]. repeat split; auto. lia.
+    - destruct Hp.
+    - destruct Hp as (f & Hf & Hn' & He). apply Hlf in Hf. destruct Hf as [(_ & Hf & _)|Hf].
+      + right; left. exists f. subst n. auto.
+      + right; right. split. discriminate. split. discriminate. exists f. auto.
+    - destruct Hp as (Hi & f & Hf & He). apply Hlf in Hf. destruct Hf as [(Hi' & _)|Hf].
+      + lia.
+      + right; right. split. discriminate. split. discriminate. split; auto. exists f. auto. }
+  constructor.
+  - unfold s', reopen_state. cbn [levels]. rewrite set_level_length. apply HI.
+  - unfold s', reopen_state. cbn [mem]. apply Srt_filter. exact SP.
+  - apply Srt_nil.
+  - intros i f Hf. apply Hlf in Hf. destruct Hf as [(_ & Hf & Hne)|Hf].
+    + split; auto. destruct (I3 f Hf) as [(l & b & ->) _]. unfold chunk. apply Srt_filter. exact SP.
+    + eapply (si_fok _ _ HI); eauto.
+  - intros i Hi. unfold s', reopen_state. cbn [levels]. rewrite level_files_set_neq by lia.
+    apply (si_lsort _ _ HI); auto.
+  - intros p p' o m Hlt Ho Hm Hk.
+    apply Hpl in Ho. apply Hpl in Hm.
+    destruct Ho as [(-> & Ho & Hto)|[(f & -> & Hf & Ho)|(Hp1 & Hp2 & Ho)]];
+      destruct Hm as [(-> & Hm & Htm)|[(g & -> & Hg & Hm)|(Hq1 & Hq2 & Hm)]].
+    + destruct Hlt.
+    + destruct (I3 g Hg) as [_ Hb]. destruct (Hb m Hm). lia.
+    + destruct (Hpend o Ho) as [Ho'|Ho'].
+      * apply (si_rec _ _ HI PMem p' o m); auto; try (destruct p'; try congruence; exact I).
+      * apply (si_rec _ _ HI PImm p' o m); auto; try (destruct p'; try congruence; exact I).
+    + destruct Hlt.
+    + cbn in Hlt. pose proof (FOP_conj _ _ _ HFN I4) as HC.
+      destruct (ForallOrdPairs_In HC f g Hf Hg) as [E|[[E1 E2]|[E1 E2]]].
+      * subst g. lia.
+      * lia.
+      * apply (E2 m o); auto.
+    + destruct (I3 f Hf) as [_ Hb]. destruct (Hb o Ho) as [Ho' _].
+      destruct (Hpend o Ho') as [Ho''|Ho''].
+      * apply (si_rec _ _ HI PMem p' o m); auto; try (destruct p'; try congruence; exact I).
+      * apply (si_rec _ _ HI PImm p' o m); auto; try (destruct p'; try congruence; exact I).
+    + destruct p; try congruence; destruct Hlt.
+    + destruct p as [| |n|i]; try congruence.
+      * cbn in Hlt. destruct Ho as (f0 & Hf0 & Hn0 & _).
+        pose proof (si_num _ _ HI _ _ Hf0). pose proof (Hnum g Hg). lia.
+      * destruct Hlt.
+    + eapply (si_rec _ _ HI); eauto.
+  - intros e He. apply Hsub in He. apply (si_seq _ _ HI); auto.
+  - intros i f Hf. apply Hlf in Hf. unfold s', reopen_state. cbn [next_file].
+    destruct Hf as [(_ & Hf & _)|Hf].
+    + apply Hnum; auto.
+    + pose proof (si_num _ _ HI _ _ Hf). lia.
+  - unfold s', reopen_state. cbn [levels]. apply ND_set_level; auto. apply HI.
+    + eapply Permutation_NoDup. symmetry. apply Permutation_map. apply add_files_Perm.
+      rewrite map_app. apply NoDup_app_iff. split; [|split].
+      * apply NoDup_map_filter. apply NoDup_nums_FOP.
+        eapply FOP_impl; [|exact HFN]. intros x y _ _ H. cbn beta in H. lia.
+      * apply (si_nd _ _ HI).
+      * intros n H1 H2. apply in_map_iff in H1. destruct H1 as (f & <- & Hf).
+        apply filter_In in Hf. destruct Hf as [Hf _].
+        apply in_map_iff in H2. destruct H2 as (g & Hgn & Hg).
+        pose proof (si_num _ _ HI _ _ Hg). pose proof (Hnum f Hf). lia.
+    + intros f Hf. apply add_files_In in Hf. destruct Hf as [Hf|Hf]; auto.
+      right. intros j g _ Hg. apply filter_In in Hf. destruct Hf as [Hf _].
+      pose proof (si_num _ _ HI _ _ Hg). pose proof (Hnum f Hf). lia.
+  - intros q [].
+  - reflexivity.
+Qed.
+
+Lemma reopen_SInv s bounds nums nf s' : SInv s -> do_reopen ucmp s bounds nums nf = Some s' -> SInv s'.
+Proof.
+  intros HI H. apply reopen_inv in H. destruct H as (fs & top & ER & Hn & Hinc & Hnf & ->).
+  eapply reopen_state_SInv; eauto.
+Qed.
+
+Lemma reopen_all_entries s bounds nums nf s' e : SInv s -> seqs_pos s -> do_reopen ucmp s bounds nums nf = Some s' ->
+  (In e (all_entries s') <-> In e (all_entries s)).
+Proof.
+  intros HI HP H. apply reopen_inv in H. destruct H as (fs & top & ER & Hn & Hinc & Hnf & ->).
+  split. eapply reopen_entries_sub; eauto.
+  intros He. pose proof (HP e He) as Hpos.
+  destruct (reopen_files_spec _ _ _ _ _ _ ER) as (I1 & I2 & I3 & I4 & I5).
+  assert (Hl: (0 < length (levels s))%nat). { rewrite (si_len _ _ HI). unfold NUM_LEVELS. lia. }
+  assert (Hpe: In e (pending_entries ucmp s) -> In e (all_entries (reopen_state s fs top nf))).
+  { intros Hp. apply all_entries_In. destruct (N.lt_ge_cases top (es e)) as [Ht|Ht].
+    - left. unfold reopen_state. cbn [mem]. apply filter_In. split; auto. lia.
+    - right; right. destruct (I5 e Hp) as (f & Hf1 & Hf2). lia.
+      exists 0%nat, f. split; auto. apply reopen_level_files; auto. left. repeat split; auto.
+      intros E. rewrite E in Hf2. destruct Hf2. }
+  apply all_entries_In in He. destruct He as [He|[He|(i & f & H1 & H2)]].
+  - apply Hpe. apply pending_In. auto.
+  - apply Hpe. apply pending_In. auto.
+  - apply all_entries_In. right; right. exists i, f. split; auto.
+    apply reopen_level_files; auto.
 Qed.
 
 End Flush.
